@@ -211,6 +211,18 @@ func AddSentinels(e types.EnvType) {
 	call.CallOverrideFN(e, "raise-go!", func() (types.MalType, error) { return nil, Sentinel })
 	call.CallOverrideFN(e, "panic-go!", func() (types.MalType, error) { panic(Sentinel) })
 	call.CallOverrideFN(e, "panic-val!", func(a types.MalType) (types.MalType, error) { panic(a) })
+	// bound the raw way (no reflective binder, hence no conversion of the panic): the body of an enclosing
+	// try is what recovers it
+	e.Set(types.Symbol{Val: "raw-panic-go!"}, types.Func{Fn: func(ctx context.Context, a []types.MalType) (types.MalType, error) { panic(Sentinel) }})
+}
+
+// CoreEnvWithAtoms: core plus the concurrent library (atoms, futures).
+func CoreEnvWithAtoms() types.EnvType {
+	e := CoreEnv()
+	if err := nsconcurrent.Load(e); err != nil {
+		panic(err)
+	}
+	return e
 }
 
 // ParseForms turns source text into top-level forms using the real reader. Only used
